@@ -42,7 +42,8 @@ var (
 	// addresses by name whether or not the fixture has them
 	c08allDirs   []string
 	c08extraBrds []*c08Board // boards of the cache beyond c08boards (restored after a write, never addressed)
-	// op 9 (c08cfg.go): the target board is chosen by name, the read-only system boards by the site configuration
+	// op 9 (c08cfg.go): the target board is chosen by name, the read-only system boards by the site configuration;
+	// op 11 (c08name.go): the target board carries the name the case chooses
 	c08tbOverride *c08Board
 )
 
@@ -269,6 +270,9 @@ func c08Run(args [][]string) []string {
 	}
 	if op == 10 {
 		return c08RunAsUID(args)
+	}
+	if op == 11 {
+		return c08RunNamed(args)
 	}
 	if op < 1 || op > 6 || (len(args) != 5 && len(args) != 8) {
 		return []string{"9"}
